@@ -141,7 +141,7 @@ func Run(cfg Config, mainFn func()) *Sim {
 		cfg.LoneLimit = 20000
 	}
 	if cfg.WallLimit == 0 {
-		cfg.WallLimit = 20 * time.Second
+		cfg.WallLimit = 120 * time.Second
 	}
 	s := &Sim{cfg: cfg, chans: map[uintptr]*chanModel{}, finished: make(chan struct{}), verdict: VOK, hash: 14695981039346656037}
 	S = s
